@@ -732,7 +732,6 @@ impl Decoder for RawResponseMessageDecoder {
         let body_len = (body_len_and_tag & !OP_MASK) as usize;
         let required = HEADER_INIT_LEN + node_len + lane_len + body_len;
         if src.remaining() < required {
-            src.reserve(required - src.remaining());
             return Ok(None);
         }
         src.advance(HEADER_INIT_LEN);
@@ -783,7 +782,6 @@ impl Decoder for RawRequestMessageDecoder {
         let body_len = (body_len_and_tag & !OP_MASK) as usize;
         let required = HEADER_INIT_LEN + node_len + lane_len + body_len;
         if src.remaining() < required {
-            src.reserve(required);
             return Ok(None);
         }
         src.advance(HEADER_INIT_LEN);
